@@ -72,7 +72,7 @@ func init() {
 			}
 			want := opsData(c.Ops)
 			if msg := checkCompleteStream(*c.Cfg, tr.Out, want); msg != "" {
-				return viol(c, "roundtrip/"+cfgClass(*c.Cfg), "%s: %s", c.Cfg, msg)
+				return viol(c, keyFor("roundtrip/"+cfgClass(*c.Cfg), *c.Cfg, msg), "%s: %s", c.Cfg, msg)
 			}
 			raw, _ := stripContainer(c.Cfg.Pkg, tr.Out, c.Cfg.Dict)
 			ref := RefInflate(raw, true, c.Cfg.Dict, 0)
@@ -197,11 +197,11 @@ func init() {
 				want := all[:tr.FlushData[i]]
 				prefix := tr.Out[:at]
 				if msg := checkFlushPrefix(*c.Cfg, prefix, want); msg != "" {
-					return viol(c, "flush-prefix/"+cfgClass(*c.Cfg), "%s: after Flush #%d (data so far %d bytes, %d bytes emitted): %s", c.Cfg, i+1, len(want), at, msg)
+					return viol(c, keyFor("flush-prefix/"+cfgClass(*c.Cfg), *c.Cfg, msg), "%s: after Flush #%d (data so far %d bytes, %d bytes emitted): %s", c.Cfg, i+1, len(want), at, msg)
 				}
 			}
 			if msg := checkCompleteStream(*c.Cfg, tr.Out, all); msg != "" {
-				return viol(c, "flush-continuation/"+cfgClass(*c.Cfg), "%s: stream invalid after continuing past Flush: %s", c.Cfg, msg)
+				return viol(c, keyFor("flush-continuation/"+cfgClass(*c.Cfg), *c.Cfg, msg), "%s: stream invalid after continuing past Flush: %s", c.Cfg, msg)
 			}
 			st.Count("setting:" + c.Cfg.String())
 			st.Count(fmt.Sprintf("flushes:%s", clampS(len(tr.FlushAt))))
@@ -604,7 +604,7 @@ func checkC16(c *Case, st *Stats) *Violation {
 			seg := segmentOut(f, c.Ops, i)
 			want := segmentData(c.Ops, i)
 			if msg := checkCompleteStream(*c.Cfg, seg[:min(len(seg), emitted)], want); msg != "" {
-				return viol(c, "first-close-stream/"+cfgClass(*c.Cfg), "%s: bytes up to the first Close (sequence %s): %s", c.Cfg, opsShape(c.Ops), msg)
+				return viol(c, keyFor("first-close-stream/"+cfgClass(*c.Cfg), *c.Cfg, msg), "%s: bytes up to the first Close (sequence %s): %s", c.Cfg, opsShape(c.Ops), msg)
 			}
 		}
 	}
@@ -691,6 +691,9 @@ func checkFlushPrefix(cfg WCfg, prefix, want []byte) string {
 	switch cfg.Pkg {
 	case "flate":
 		out, e := stdDecodeRaw(prefix, cfg.Dict)
+		if len(cfg.Dict) > 0 && !bytes.Equal(out, want) && bytes.Equal(out, append(append([]byte{}, cfg.Dict...), want...)) {
+			return fmt.Sprintf("dict-prepended: compress/flate reproduces the %d dictionary bytes followed by the %d data bytes", len(cfg.Dict), len(want))
+		}
 		if !bytes.Equal(out, want) {
 			return fmt.Sprintf("compress/flate reproduces %d bytes, want %d (first diff %d), err=%v", len(out), len(want), firstDiff(out, want), e)
 		}
@@ -701,6 +704,9 @@ func checkFlushPrefix(cfg WCfg, prefix, want []byte) string {
 		_ = r
 		_ = err
 		out, e := stdDecodeContainerPartial(cfg, prefix)
+		if len(cfg.Dict) > 0 && !bytes.Equal(out, want) && bytes.Equal(out, append(append([]byte{}, cfg.Dict...), want...)) {
+			return fmt.Sprintf("dict-prepended: compress/%s reproduces the %d dictionary bytes followed by the %d data bytes", cfg.Pkg, len(cfg.Dict), len(want))
+		}
 		if !bytes.Equal(out, want) {
 			return fmt.Sprintf("compress/%s reproduces %d bytes, want %d (first diff %d), err=%v", cfg.Pkg, len(out), len(want), firstDiff(out, want), e)
 		}
